@@ -286,6 +286,7 @@ def run(ctx):
             for k, _ in objs: kinds[k] = kinds.get(k, 0) + 1
             toks = obj_tokens(objs)
             pcases.append(["pf print %s %d %s" % (fn, 100000, toks) for fn in ("bp", "bpl", "sp", "spl", "fp", "fpl")])
+        pcases += long_print_cases()
         ctx.correspond("print-family", exe, pcases, oracle=print_oracle, nontrivial=lambda c: True, timeout=tmo)
         ctx.extra_cov["print_object_kinds"] = kinds
     ctx.extra_cov["conversions"] = hist
@@ -329,6 +330,19 @@ def rand_objs(r, with_fmt=True):
         elif k == "g": v = bytes(r.choice(b"ab\0c \xc3\xa4") for _ in range(r.choice([0, 1, 4, 9])))
         objs.append((k, v))
     return objs
+
+
+def long_print_cases():
+    """outputs longer than the stream writers' 4096-byte stack buffer (the second, heap-buffered pass of pf_vfprintf), through
+    every print function: a field width or a long text around the boundary"""
+    out = []
+    for n in (4090, 4095, 4096, 4097, 5000, 9000):
+        objs1 = [("F", b"%" + str(n).encode() + b"d|"), ("q", 42)]
+        objs2 = [("t", b"x" * n), ("i", 7)]
+        objs3 = [("F", b"[%-" + str(n).encode() + b"s]"), ("t", b"abc"), ("g", b"tail")]
+        for objs in (objs1, objs2, objs3):
+            out.append(["pf print %s %d %s" % (fn, 100000, obj_tokens(objs)) for fn in ("bp", "sp", "spl", "fp", "fpl")])
+    return out
 
 
 def obj_tokens(objs):
